@@ -18,6 +18,7 @@ import (
 	"context"
 	"errors"
 	"fmt"
+	"math"
 	"time"
 
 	"github.com/attestantio/dirk/rules"
@@ -145,6 +146,17 @@ func (s *Service) runSignBeaconAttestationChecks(_ context.Context, metadata *ru
 			Uint64("sourceEpoch", sourceEpoch).
 			Uint64("targetEpoch", targetEpoch).
 			Msg("Request target epoch equal to or lower than request source epoch")
+
+		return rules.DENIED
+	}
+
+	// Epochs are stored as signed 64-bit integers; a higher epoch would wrap to a negative value,
+	// which is indistinguishable from "nothing signed yet", so cannot be protected.
+	if sourceEpoch > math.MaxInt64 || targetEpoch > math.MaxInt64 {
+		log.Warn().
+			Uint64("sourceEpoch", sourceEpoch).
+			Uint64("targetEpoch", targetEpoch).
+			Msg("Request epoch too high to be protected")
 
 		return rules.DENIED
 	}
